@@ -131,8 +131,11 @@ func rebuildReferrers(fn *ssa.Function) {
 }
 
 func inlinable(f *ssa.Function) bool {
-	if f == nil || f.Blocks == nil || f.Synthetic != "" {
+	if f == nil || f.Blocks == nil {
 		return false
+	}
+	if f.Synthetic != "" && f.Origin() == nil {
+		return false // wrappers, thunks, bound methods; instances of generic functions are ordinary bodies
 	}
 	if f.Recover != nil {
 		return false
@@ -381,10 +384,17 @@ func (p *Prog) Normalise(known map[string]bool, keep func(*ssa.Function) bool) (
 	kept := map[*ssa.Function]bool{}
 	state := map[*ssa.Function]int{} // 1: being processed, 2: done
 	candidate := func(fn, f *ssa.Function) bool {
-		if f == nil || f == fn || f.Pkg == nil || p.ByPath[f.Pkg.Pkg.Path()] == nil {
+		if f == nil || f == fn {
 			return false
 		}
-		if strings.HasSuffix(f.Pkg.Pkg.Path(), "/mocks") {
+		pkg := f.Pkg
+		if pkg == nil && f.Origin() != nil {
+			pkg = f.Origin().Pkg // an instance of a generic function of the repository
+		}
+		if pkg == nil || p.ByPath[pkg.Pkg.Path()] == nil {
+			return false
+		}
+		if strings.HasSuffix(pkg.Pkg.Path(), "/mocks") {
 			return false
 		}
 		return !known[FuncName(f)] && inlinable(f)
@@ -427,6 +437,9 @@ func (p *Prog) Normalise(known map[string]bool, keep func(*ssa.Function) bool) (
 						}
 					}
 				}
+			}
+			if inlinedInto[fn] && resolveStructFields(fn) {
+				changed = true
 			}
 			n := UnrollTableLoops(fn)
 			for i := 0; i < 4 && specialiseConstIndex(fn); i++ {
